@@ -9,6 +9,7 @@
 #include "session.hpp"
 #include "xzutil.hpp"
 #include "../model/refxz.hpp"
+#include "reflz.hpp"
 #include "../model/refbcj.hpp"
 #include "../model/refcheck.hpp"
 
@@ -257,8 +258,8 @@ static void synth_lz_member(ref::SynthRng &rng, int version, uint8_t dict_code, 
 }
 
 // Reference .lz decoder (lzip manual, "File format"): returns 0 valid, 1 invalid, 2 unsupported version
-struct LzResult { int verdict = 1; Bytes out; size_t consumed = 0; std::string why; int members = 0; };
-static LzResult ref_lzip(const Bytes &f, bool concatenated)
+} // namespace
+LzResult ref_lzip(const std::vector<uint8_t> &f, bool concatenated)
 {
 	LzResult r;
 	size_t pos = 0;
@@ -307,6 +308,7 @@ static LzResult ref_lzip(const Bytes &f, bool concatenated)
 		if (pos == f.size()) { r.verdict = 0; return r; }
 	}
 }
+namespace {
 
 static void c16_gen(Rng &rng, Plan &plan, bool thorough)
 {
